@@ -123,6 +123,14 @@ Proof.
   - intros u Ou NE. rewrite <- (C2 u NE). apply V1; auto.
 Qed.
 
+Theorem rv_parallel_moves_total (am : amap rtemp) :
+  indeg1 rtemp rv_teqb am -> exists code, parallel_moves_code rv_backend am = Ok code.
+Proof.
+  intros ID. unfold parallel_moves_code. fold rv_teqb.
+  pose proof (parallel_moves_terminates rtemp rv_teqb rv_teqb_spec am ID) as H. unfold parallel_moves in H.
+  destruct (spanning_forest rtemp rv_teqb _ am); [eexists; reflexivity|]. exfalso. apply H. reflexivity.
+Qed.
+
 (* ================= the whole Substitute ================= *)
 Notation rtpos := (tpos rv_backend).
 
@@ -315,4 +323,37 @@ Proof.
     rewrite <- (X4 u NT1 NF). apply P2; [split; [exact NZ|exact NT1]|].
     intros a E. apply EDG in E as (k & j & bk & pj & n & _ & Hj & _ & _ & _ & Hb).
     specialize (NEW j n Hb). assert (j < List.length re)%nat by (apply nth_error_Some; congruence). lia.
+Qed.
+
+(* ---------- the hypotheses of rv_substitute_ok are satisfiable (same substitution as for AArch64) ---------- *)
+Definition ex_T : ty := Decl ("T"%string, 0%N).
+Definition ex_ctx : ctx := [mkb ("a"%string, 1%N) Prd ex_T; mkb ("b"%string, 2%N) Ext I64; mkb ("c"%string, 3%N) Prd ex_T].
+Definition ex_re : list (binding * ident) :=
+  [(mkb ("b"%string, 4%N) Ext I64, ("b"%string, 2%N)); (mkb ("a"%string, 5%N) Prd ex_T, ("a"%string, 1%N));
+   (mkb ("a"%string, 6%N) Prd ex_T, ("a"%string, 1%N))].
+Definition ex_code : list rcode :=
+  match code_statement rv_backend [] (Substitute ex_re (Call ("f"%string, 0%N) [])) ex_ctx 0 with Ok (c, _) => c | Err _ => [] end.
+Definition ex_state : rstate :=
+  {| regs := PM.add (N.succ_pos 4) (HEAP_BASE + 64) (PM.add (N.succ_pos 8) 0
+               (PM.add (N.succ_pos 2) (HEAP_BASE + 192) (PM.add (N.succ_pos 3) (HEAP_BASE + 128) (PM.empty Z))));
+     heap := PM.empty Z; hw := HEAP_BASE - 8 |}.
+Definition ex_heap : aheap := {| words := fun _ => 0; hp := HEAP_BASE + 192; fp := HEAP_BASE + 128 |}.
+Example rv_substitute_hyps_satisfiable :
+  NoDup (ids ex_ctx) /\ NoDup (new_ids ex_re) /\ Z.of_nat (List.length ex_re) <= 2048 /\
+  code_statement rv_backend [] (Substitute ex_re (Call ("f"%string, 0%N) [])) ex_ctx 0 = Ok (ex_code, 4%N) /\
+  List.length ex_code = 23%nat /\
+  placed (mk_image ([] ++ ex_code ++ [])) 1 ex_code /\
+  represents ex_state ex_heap /\
+  (forall k b t, nth_error ex_ctx k = Some b -> is_obj b = true -> rtpos Fst k = Ok t ->
+     exists p, rget ex_state t = Some p /\ (p = 0 \/ valid_addr p)).
+Proof.
+  split; [vm_compute; repeat constructor; cbn; intuition discriminate|].
+  split; [vm_compute; repeat constructor; cbn; intuition discriminate|].
+  split; [vm_compute; discriminate|].
+  split; [vm_compute; reflexivity|]. split; [vm_compute; reflexivity|].
+  split; [apply (placed_mk_image [] ex_code []); vm_compute; repeat constructor; cbn; intuition discriminate|].
+  split; [split; [intros a; unfold hword, ex_state; cbn [heap]; rewrite PM.gempty; reflexivity|split; reflexivity]|].
+  intros k b t Hk Ho Ht. destruct k as [|[|[|k]]]; cbn in Hk; try (destruct k; discriminate); inversion Hk; subst; try discriminate.
+  - vm_compute in Ht. inversion Ht; subst t. exists (HEAP_BASE + 64). split; [reflexivity|]. right. split; reflexivity.
+  - vm_compute in Ht. inversion Ht; subst t. exists 0. split; [reflexivity|]. left; reflexivity.
 Qed.
